@@ -18,7 +18,7 @@ import subprocess
 import sys
 import time
 
-ROOT = '/var/tmp/pygyro-mut'
+ROOT = os.environ.get('MUT_ROOT', '/var/tmp/pygyro-mut')
 TREE = ROOT + '/repo'
 
 CMP = {ast.Lt: ('<', '<='), ast.LtE: ('<=', '<'), ast.Gt: ('>', '>='), ast.GtE: ('>=', '>'), ast.Eq: ('==', '!='), ast.NotEq: ('!=', '==')}
